@@ -13,6 +13,9 @@ type InputSpec struct {
 	Vals   []int64     `json:"vals,omitempty"`
 	Type   string      `json:"type,omitempty"` // int64 (default) | int32 | int16 | utf8 | renamed | twocols
 	Cancel bool        `json:"cancel,omitempty"`
+	// CancelSpelling selects the value written under the cancel key (see
+	// CancelValues): the protocol keys on the key's presence.
+	CancelSpelling int `json:"cancel_spelling,omitempty"`
 	Meta   [][2]string `json:"meta,omitempty"`
 }
 
@@ -26,6 +29,8 @@ type CallSpec struct {
 	Opts      ReqOpts       `json:"opts,omitempty"`
 	Ticks     int           `json:"ticks,omitempty"`     // producer: ticks pre-written
 	CancelAt  int           `json:"cancel_at,omitempty"` // producer: index of the cancel tick, -1 none
+	// CancelSpelling: as InputSpec.CancelSpelling, for the producer's cancel tick.
+	CancelSpelling int `json:"cancel_spelling,omitempty"`
 	Inputs    []InputSpec   `json:"inputs,omitempty"`    // exchange inputs
 	NoInput   bool          `json:"no_input,omitempty"`  // stream call whose client sends no input stream at all (only valid when the request is refused before init)
 }
@@ -103,7 +108,7 @@ func (in InputSpec) Batch() arrow.RecordBatch {
 	}
 	var keys, vals []string
 	if in.Cancel {
-		keys, vals = append(keys, KCancel), append(vals, "true")
+		keys, vals = append(keys, KCancel), append(vals, CancelValue(in.CancelSpelling))
 	}
 	for _, kv := range in.Meta {
 		keys, vals = append(keys, kv[0]), append(vals, kv[1])
@@ -145,7 +150,7 @@ func (c CallSpec) PipeBytes() (req, input []byte) {
 			kind = c.Stream.DynKind
 		}
 		if kind == "producer" {
-			return req, TickStream(c.Ticks, c.CancelAt, nil)
+			return req, TickStreamV(c.Ticks, c.CancelAt, nil, CancelValue(c.CancelSpelling))
 		}
 		// exchange: the input stream's schema is that of the first batch (a
 		// client sends one schema per stream); batches of another shape in
@@ -248,7 +253,7 @@ func GenLogs(t *rapid.T, max int) []LogSpec {
 }
 
 func GenErrSpec(t *rapid.T) *ErrSpec {
-	kinds := []string{"rpc", "rpc", "plain", "wrapped_rpc", "wrapped_plain", "custom", "kinded", "joined", "panic_str", "panic_err", "panic_int", "panic_rpc", "panic_nilmap"}
+	kinds := []string{"rpc", "rpc", "plain", "wrapped_rpc", "wrapped_plain", "custom", "kinded", "joined", "panic_str", "panic_err", "panic_int", "panic_rpc", "panic_nilmap", "sentinel"}
 	e := &ErrSpec{Kind: kinds[rapid.IntRange(0, len(kinds)-1).Draw(t, "ekind")]}
 	e.Type = errTypes[rapid.IntRange(0, len(errTypes)-1).Draw(t, "etype")]
 	e.Msg = "m:" + GenString(t, "emsg")
@@ -256,6 +261,9 @@ func GenErrSpec(t *rapid.T) *ErrSpec {
 		e.ErrKind = []string{"my_kind", "session_lost", "x"}[rapid.IntRange(0, 2).Draw(t, "ekindv")]
 	}
 	e.Depth = rapid.IntRange(0, 2).Draw(t, "edepth")
+	if e.Kind == "sentinel" {
+		e.Sentinel = SentinelNames[rapid.IntRange(0, len(SentinelNames)-1).Draw(t, "esentinel")]
+	}
 	if rapid.IntRange(0, 2).Draw(t, "etb?") == 0 {
 		e.TB = "Traceback (most recent call last):\n  upstream frame " + GenString(t, "etb")
 	}
@@ -344,6 +352,7 @@ func GenStreamCall(t *rapid.T, id string) CallSpec {
 		c.Ticks = rapid.IntRange(0, 8).Draw(t, "ticks")
 		if c.Ticks > 0 && rapid.IntRange(0, 3).Draw(t, "cancel?") == 0 {
 			c.CancelAt = rapid.IntRange(0, c.Ticks-1).Draw(t, "cancelat")
+			c.CancelSpelling = GenCancelSpelling(t)
 		}
 	} else {
 		n := rapid.IntRange(0, 6).Draw(t, "ninputs")
@@ -356,6 +365,7 @@ func GenStreamCall(t *rapid.T, id string) CallSpec {
 			}
 			if rapid.IntRange(0, 7).Draw(t, "icancel") == 0 {
 				in.Cancel = true
+				in.CancelSpelling = GenCancelSpelling(t)
 			}
 			if rapid.IntRange(0, 3).Draw(t, "imeta") == 0 {
 				in.Meta = [][2]string{{"user.tick", GenString(t, "tmv")}}
@@ -388,4 +398,23 @@ func GenCall(t *rapid.T, id string) CallSpec {
 		c.Opts.LogLevel = append(logLevels, "EXCEPTION", "bogus")[rapid.IntRange(0, 6).Draw(t, "ll")]
 	}
 	return c
+}
+
+// CancelValues are spellings of the cancel key's value; index 0 is the usual one.
+var CancelValues = []string{"true", "1", "", "0", "false", "TRUE", " ", "cancel"}
+
+// CancelValue returns the spelling at index i (out of range: the usual one).
+func CancelValue(i int) string {
+	if i < 0 || i >= len(CancelValues) {
+		return CancelValues[0]
+	}
+	return CancelValues[i]
+}
+
+// GenCancelSpelling draws a spelling index, the usual one half of the time.
+func GenCancelSpelling(t *rapid.T) int {
+	if rapid.Bool().Draw(t, "cancelspelt") {
+		return 0
+	}
+	return rapid.IntRange(1, len(CancelValues)-1).Draw(t, "cancelspelling")
 }
